@@ -357,6 +357,11 @@ class Inliner(object):
             for b in F['blocks']:
                 if b['id'] in idmap.values():
                     continue
+                # another evaluation of the same call text (a second call site of the helper with the same arguments) has
+                # its own result: only the block that continues THIS call, and blocks without a call event of their own,
+                # mention this result
+                if b is not cont and any(e.get('k') == 'call' and e.get('fn') == E.get('fn') and _call_key(e) == key for e in b['ev']):
+                    continue
                 b['ev'] = [{kk: _map(vv, repl) for kk, vv in e.items()} for e in b['ev']]
                 if 'term' in b:
                     b['term'] = _map(b['term'], repl)
